@@ -13,29 +13,32 @@ fn overlap(x: u64, y: u64, lo: u64, hi: u64) -> u64 {
     if a < c { c - a } else { 0 }
 }
 
-/// receiver holding k (0 or 1) symbolic segment(s); progress counter == bytes held (the invariant)
-fn recv_with_segments(k: usize, mode: TransmissionMode, ch: &Chans) -> (RecvTransaction<ModelFs>, [u64; 4], u64) {
+/// receiver holding nothing or the concrete segment (4,8); progress counter == bytes held (the invariant)
+fn recv_with_segment(k: usize, mode: TransmissionMode, ch: &Chans) -> (RecvTransaction<ModelFs>, u64) {
     link_libc();
     verif::set_now(Duration::from_secs(100));
     let mut p = recv_parts(config(mode), NakProcedure::Deferred(Duration::ZERO), ch);
     p.metadata = Some(metadata(true, 0, false, ChecksumType::Modular, vec![]));
-    let (s, b) = any_segments(k, 1 << 40);
-    p.saved_segments = s;
-    let held = if k == 1 { b[1] - b[0] } else { 0 };
+    let held = if k == 1 {
+        p.saved_segments.merge((4, 8));
+        4
+    } else {
+        0
+    };
     p.received_file_size = held;
     p.nak_received_file_size = held;
     p.timer.inactivity = counter(10, 2, 100, 0, false, false);
-    (RecvTransaction::verif_from_parts(p), b, held)
+    (RecvTransaction::verif_from_parts(p), held)
 }
 
 fn recv_data_step(k: usize, l: usize, mode: TransmissionMode) {
     let ch = chans();
-    let (mut t, b, held) = recv_with_segments(k, mode, &ch);
+    let (mut t, held) = recv_with_segment(k, mode, &ch);
     let off: u64 = kani::any();
     kani::assume(off < (1 << 40));
     let data: [u8; 3] = kani::any();
     t.process_pdu(filedata(mode, off, data[..l].to_vec())).unwrap();
-    let new = (l as u64) - if k == 1 { overlap(off, off + l as u64, b[0], b[1]) } else { 0 };
+    let new = (l as u64) - if k == 1 { overlap(off, off + l as u64, 4, 8) } else { 0 };
     assert!(t.verif_progress() == held + new, "progress == number of distinct bytes held");
     assert!(t.verif_progress() >= held, "progress never decreases");
     let fs = verif::ind_last_kind(verif::K_FILE_SEGMENT);
@@ -45,55 +48,88 @@ fn recv_data_step(k: usize, l: usize, mode: TransmissionMode) {
     forget(t);
     forget(ch);
 }
-//# funcs=RecvTransaction::process_pdu(FileData),store_file_data,Segments::merge; bound=0 or 1 held segment (symbolic, < 2^40), new data of 1 or 3 bytes at any offset < 2^40, acknowledged mode; stubs=S1,S2,S3,S5
-th!(c20_q_recv_data_progress, 8, {
-    if kani::any() {
-        recv_data_step(1, 3, TransmissionMode::Acknowledged)
-    } else {
-        recv_data_step(0, 1, TransmissionMode::Acknowledged)
-    }
+//# funcs=RecvTransaction::process_pdu(FileData),store_file_data,Segments::merge; bound=held (4,8), 3 new bytes at any offset < 2^40 (before / overlapping / inside / after), acknowledged mode; stubs=S1,S2,S3,S5
+th!(c20_t_recv_data_progress_k1, 8, { recv_data_step(1, 3, TransmissionMode::Acknowledged) });
+//# funcs=RecvTransaction::process_pdu(FileData),store_file_data,Segments::merge,segments::merge; bound=held (0,2) and (4,6), 5 new bytes at any offset 0..=8 (incl. a retransmission from the start of a held segment that swallows the next one); stubs=S1,S2,S3,S5
+th!(c20_q_recv_data_progress_k2, 8, {
+    let ch = chans();
+    link_libc();
+    verif::set_now(Duration::from_secs(100));
+    let mut p = recv_parts(config(TransmissionMode::Acknowledged), NakProcedure::Deferred(Duration::ZERO), &ch);
+    p.metadata = Some(metadata(true, 0, false, ChecksumType::Modular, vec![]));
+    p.saved_segments.merge((0, 2));
+    p.saved_segments.merge((4, 6));
+    p.received_file_size = 4;
+    p.nak_received_file_size = 4;
+    p.timer.inactivity = counter(10, 2, 100, 0, false, false);
+    let mut t = RecvTransaction::verif_from_parts(p);
+    let off: u64 = kani::any();
+    kani::assume(off <= 8);
+    let data: [u8; 5] = kani::any();
+    t.process_pdu(filedata(TransmissionMode::Acknowledged, off, data.to_vec())).unwrap();
+    let new = 5 - overlap(off, off + 5, 0, 2) - overlap(off, off + 5, 4, 6);
+    assert!(t.verif_progress() == 4 + new, "progress == number of distinct bytes held");
+    kani::cover!(off == 0, "from the start of the first held segment over the second");
+    forget(t);
+    forget(ch);
 });
-//# funcs=RecvTransaction::process_pdu(FileData) unacknowledged mode; bound=as above; stubs=S1,S2,S3,S5
+//# funcs=RecvTransaction::process_pdu(FileData),store_file_data,Segments::merge; bound=nothing held, 1 new byte at any offset < 2^40; stubs=S1,S2,S3,S5
+th!(c20_q_recv_data_progress_k0, 8, { recv_data_step(0, 1, TransmissionMode::Acknowledged) });
+//# funcs=RecvTransaction::process_pdu(FileData) unacknowledged mode; bound=held (4,8), 2 new bytes anywhere; stubs=S1,S2,S3,S5
 th!(c20_t_recv_data_progress_unack, 8, { recv_data_step(1, 2, TransmissionMode::Unacknowledged) });
 
-//# funcs=RecvTransaction::answer_prompt(KeepAlive),get_progress,resume,abandon; bound=1 held segment symbolic; every figure that leaves the entity equals the byte count; stubs=S1,S2,S3
-th!(c20_q_recv_reported_figures, 8, {
+/// receiver whose byte counter has the symbolic value r (segments irrelevant for the figures that leave)
+fn recv_with_counter(ch: &Chans) -> (RecvTransaction<ModelFs>, u64) {
+    verif::set_now(Duration::from_secs(100));
+    let mut p = recv_parts(config(TransmissionMode::Acknowledged), NakProcedure::Deferred(Duration::ZERO), ch);
+    p.metadata = Some(metadata(true, 0, false, ChecksumType::Modular, vec![]));
+    let r: u64 = kani::any();
+    kani::assume(r < (1 << 32));
+    p.received_file_size = r;
+    p.nak_received_file_size = r;
+    p.timer.inactivity = counter(10, 2, 100, 0, false, false);
+    (RecvTransaction::verif_from_parts(p), r)
+}
+//# funcs=RecvTransaction::send_pdu,answer_prompt(KeepAlive),get_progress; bound=byte counter symbolic < 2^32: the keep-alive PDU carries it; stubs=S1,S2,S3
+th!(c20_q_recv_keepalive_figure, 8, {
     let ch = chans();
-    let (mut t, _b, held) = recv_with_segments(1, TransmissionMode::Acknowledged, &ch);
-    let which: u8 = kani::any();
-    kani::assume(which < 3);
-    if which == 0 {
-        t.process_pdu(directive(
-            TransmissionMode::Acknowledged,
-            Direction::ToReceiver,
-            Operations::Prompt(PromptPDU { nak_or_keep_alive: NakOrKeepAlive::KeepAlive }),
-        ))
-        .unwrap();
-        assert!(verif::recv_has_pdu_to_send(&t));
-        let out11 = recv_send(&mut t, &ch);
-        match &out11 {
-            Some((_, PDU { payload: PDUPayload::Directive(Operations::KeepAlive(k)), .. })) => {
-                assert!(k.progress == held, "keep-alive progress == bytes held")
-            }
-            _ => assert!(false, "KeepAlive expected"),
+    let (t, r) = recv_with_counter(&ch);
+    // a keep-alive prompt is pending (set directly: the prompt variant must be concrete for the send step)
+    let mut p = t.verif_into_parts();
+    p.prompt = Some(PromptPDU { nak_or_keep_alive: NakOrKeepAlive::KeepAlive });
+    let mut t = RecvTransaction::verif_from_parts(p);
+    assert!(verif::recv_has_pdu_to_send(&t));
+    let out = recv_send(&mut t, &ch);
+    match &out {
+        Some((_, PDU { payload: PDUPayload::Directive(Operations::KeepAlive(k)), .. })) => {
+            assert!(k.progress == r, "keep-alive progress == bytes held")
         }
-        forget(out11);
-    } else if which == 1 {
+        _ => assert!(false, "KeepAlive expected"),
+    }
+    forget(out);
+    kani::cover!(true, "end");
+    forget(t);
+    forget(ch);
+});
+//# funcs=RecvTransaction::suspend,resume,abandon,get_progress; bound=byte counter symbolic: resumed and abandon indications carry it; stubs=S1,S2,S3
+th!(c20_q_recv_indication_figures, 8, {
+    let ch = chans();
+    let (mut t, r) = recv_with_counter(&ch);
+    if kani::any() {
         t.suspend().unwrap();
         t.resume().unwrap();
-        assert!(verif::ind_last_kind(verif::K_RESUMED) == Some((held, 0)), "resumed indication progress == bytes held");
+        assert!(verif::ind_last_kind(verif::K_RESUMED) == Some((r, 0)), "resumed indication progress == bytes held");
     } else {
         t.abandon();
-        assert!(verif::ind_last_kind(verif::K_ABANDON).unwrap().1 == held, "abandon indication progress == bytes held");
+        assert!(verif::ind_last_kind(verif::K_ABANDON).unwrap().1 == r, "abandon indication progress == bytes held");
     }
-    kani::cover!(which == 0, "keepalive");
-    kani::cover!(which == 2, "abandon");
+    kani::cover!(true, "end");
     forget(t);
     forget(ch);
 });
 
 /// sender in the first pass over a file of `l` bytes (content symbolic), cursor at `c`, segment size `s`
-fn sender_first_pass(l: usize, s: u16, ch: &Chans) -> (SendTransaction<ModelFs>, usize) {
+fn sender_first_pass(l: usize, s: u16, c: usize, ch: &Chans) -> (SendTransaction<ModelFs>, usize) {
     link_libc();
     verif::set_now(Duration::from_secs(100));
     let content: [u8; CAP] = kani::any();
@@ -102,8 +138,6 @@ fn sender_first_pass(l: usize, s: u16, ch: &Chans) -> (SendTransaction<ModelFs>,
     cfg.file_size_segment = s;
     let mut p = send_parts(cfg, metadata(true, l as u64, false, ChecksumType::Modular, vec![]), ch);
     p.send_state = VSendState::SendData;
-    let c: usize = kani::any();
-    kani::assume(c <= l && (c < l || l == 0));
     // first pass tiles in order: progress so far == cursor
     p.sent_file_size = c as u64;
     p.file_handle = Some(handle(SRC));
@@ -111,9 +145,9 @@ fn sender_first_pass(l: usize, s: u16, ch: &Chans) -> (SendTransaction<ModelFs>,
     p.header = None;
     (SendTransaction::verif_from_parts(p), c)
 }
-fn send_progress_step(l: usize, s: u16) {
+fn send_progress_step(l: usize, s: u16, c: usize) {
     let ch = chans();
-    let (mut t, c) = sender_first_pass(l, s, &ch);
+    let (mut t, c) = sender_first_pass(l, s, c, &ch);
     let pdu = send_send(&mut t, &ch);
     let want_len = if l - c < s as usize { l - c } else { s as usize };
     match &pdu {
@@ -132,9 +166,14 @@ fn send_progress_step(l: usize, s: u16) {
     forget(t);
     forget(ch);
 }
-//# funcs=SendTransaction::send_pdu(SendData),send_file_segment,get_file_segment; bound=file of 5 bytes, segment size 2, cursor symbolic 0..=4; stubs=S1,S2,S3,S5
-th!(c20_q_send_progress_l5_s2, 12, { send_progress_step(5, 2) });
+// cursor, file length and segment size are concrete per instance (they decide buffer lengths), the content is symbolic
+//# funcs=SendTransaction::send_pdu(SendData),send_file_segment,get_file_segment; bound=5-byte file, segment size 2, cursor 0 (first segment); stubs=S1,S2,S3,S5
+th!(c20_q_send_progress_first, 12, { send_progress_step(5, 2, 0) });
+//# funcs=SendTransaction::send_pdu(SendData),get_file_segment,prepare_eof; bound=5-byte file, segment size 2, cursor 4 (short last segment); stubs=S1,S2,S3,S5
+th!(c20_q_send_progress_last, 12, { send_progress_step(5, 2, 4) });
 //# funcs=SendTransaction::send_pdu(SendData),get_file_segment; bound=empty file, segment size 4; stubs=S1,S2,S3,S5
-th!(c20_q_send_progress_empty, 12, { send_progress_step(0, 4) });
-//# funcs=SendTransaction::send_pdu(SendData),get_file_segment; bound=file of 3 bytes, segment size 4 (single short segment); stubs=S1,S2,S3,S5
-th!(c20_t_send_progress_l3_s4, 12, { send_progress_step(3, 4) });
+th!(c20_q_send_progress_empty, 12, { send_progress_step(0, 4, 0) });
+//# funcs=SendTransaction::send_pdu(SendData),get_file_segment; bound=5-byte file, segment size 2, cursor 2 (middle segment); stubs=S1,S2,S3,S5
+th!(c20_t_send_progress_middle, 12, { send_progress_step(5, 2, 2) });
+//# funcs=SendTransaction::send_pdu(SendData),get_file_segment; bound=3-byte file, segment size 4 (single short segment); stubs=S1,S2,S3,S5
+th!(c20_t_send_progress_l3_s4, 12, { send_progress_step(3, 4, 0) });
